@@ -348,6 +348,9 @@ type mkRes struct {
 	Outcome string   `json:"outcome"` // result | error | panic | timeout
 	Text    []int    `json:"text"`
 	Attrs   []mkAttr `json:"attrs"`
+	// Later: this is what a result that had been returned earlier looked like after the same parser
+	// (or runner) had gone on to other lines - a result must stay what it was when it was returned
+	Later bool `json:"later,omitempty"`
 }
 
 func mkClampInt(n int) (int, bool) {
@@ -413,14 +416,25 @@ const mkWatchdog = 5 * time.Second
 // mkParse runs one ParseMarkup call (and TextForAttribute for every attribute) under
 // recover with a watchdog.
 func mkParse(p *markup.LineParser, input string) mkRes {
-	done := make(chan mkRes, 1)
+	r, _ := mkParseKeep(p, input)
+	return r
+}
+
+// mkParseKeep also hands out the result value itself (nil unless the outcome is a result).
+func mkParseKeep(p *markup.LineParser, input string) (mkRes, *markup.ParseResult) {
+	type both struct {
+		r  mkRes
+		pr *markup.ParseResult
+	}
+	done := make(chan both, 1)
 	go func() {
 		var r mkRes
+		var pr *markup.ParseResult
 		defer func() {
 			if rec := recover(); rec != nil {
-				r = mkFail("panic")
+				r, pr = mkFail("panic"), nil
 			}
-			done <- r
+			done <- both{r, pr}
 		}()
 		res, err := p.ParseMarkup(input)
 		if err != nil {
@@ -431,13 +445,13 @@ func mkParse(p *markup.LineParser, input string) mkRes {
 			r = mkFail("panic") // neither a result nor an error
 			return
 		}
-		r = mkConvertResult(res)
+		r, pr = mkConvertResult(res), res
 	}()
 	select {
-	case r := <-done:
-		return r
+	case b := <-done:
+		return b.r, b.pr
 	case <-time.After(mkWatchdog):
-		return mkFail("timeout")
+		return mkFail("timeout"), nil
 	}
 }
 
